@@ -1049,6 +1049,14 @@ M("c04-f41-reintroduced", ["C04", "C01", "C14"], ["C04.clear", "C01.reject", "C1
   E("statemachine/engines/sync.py", "                    except BaseException:", "                    except Exception:"))
 M("c04-f41-reintroduced-async", ["C04", "C01", "C14"], ["C04.clear", "C01.reject", "C14.first"],
   E("statemachine/engines/async_.py", "                    except BaseException:", "                    except Exception:"))
+M("c01-remove-while-walking", ["C01", "C15"], ["C01.liveiter", "C15.liveiter"],
+  E(TL, """        for transition in self.transitions:
+            transition.add_event(event)
+""", """        for transition in self.transitions:
+            if transition.internal and not event:
+                self.transitions.remove(transition)
+            transition.add_event(event)
+"""))
 M("c07-partial-key-ignores-keywords", ["C07", "C16"], ["C07.cachekey", "C16.cachekey"],
   E(SIG, "        bound = (len(method.args), tuple(sorted(method.keywords)))", "        bound = len(method.args)"))
 M("c17-event-deepcopy-returns-self", ["C17", "C13"], ["C17.carry", "C13.bind"],
